@@ -15,7 +15,9 @@ EXPLANATION = (
     "*evaluated* (a small interpreter over its HIR: comparisons, `abs`, `&&`/`||`, if/else, casts of the integer limits) on every "
     "row of the table in iteration order, for boundary scenarios built from the rows' own limits (bound = a row's limit, bound "
     "= 1, no bound): whenever it answers a type, that type's range (the row's limits; 1..=unsigned max for the NonZero column) "
-    "contains the schema's range, where a missing bound means at least the i64 limit on that side."
+    "contains the schema's range, where a missing bound means at least the i64 limit on that side; "
+    "(D4, closed table) every literal arm of the string-format table is a documented format; the table has one unguarded arm "
+    "per format."
 )
 ASSUMPTIONS = ["schemars represents bounds as f64; precision loss above 2^53 is not decided"]
 
